@@ -58,6 +58,24 @@ where
     _data: PhantomData<&'a (T, A)>,
 }
 
+// Verification hook (off by default, enabled only with `--cfg bacon_verif`):
+// read-only view of the step bounds held by the builder.
+#[cfg(bacon_verif)]
+impl<'a, N, D, const O: usize, T, F, A> Adams<'a, N, D, O, T, F, A>
+where
+    D: Dimension,
+    N: ComplexField + Copy,
+    T: Clone,
+    F: Derivative<N, D, T> + 'a,
+    A: AdamsCoefficients<O, RealField = N::RealField>,
+    DefaultAllocator: Allocator<N, D>,
+{
+    #[doc(hidden)]
+    pub fn verif_dt_bounds(&self) -> (Option<N::RealField>, Option<N::RealField>) {
+        (self.init_dt_min.clone(), self.init_dt_max.clone())
+    }
+}
+
 /// The solver for any Adams predictor-corrector
 /// Users should not use this type directly, and should
 /// instead get it from a specific Adams method struct
